@@ -192,7 +192,7 @@ REGISTRY = {
     "C09": {
         "rules": [
             registries.rule_compress_registry_1d, registries.rule_full_span, registries.rule_centre_shift, exponent.rule_sum_exponents, memo.rule_density_orientation,
-            P(dmrg.rule_sweep_memory, sites=[("quimb.tensor.tn1d.compress", "tensor_network_1d_compress_fit", ("f_sweep",), "prepare")], rule="sweep-memory[fit]"),
+            P(dmrg.rule_sweep_memory, sites=[("quimb.tensor.tn1d.compress", "tensor_network_1d_compress_fit", None, "prepare")], rule="sweep-memory[fit]"),
             P(optflow.rule_option_delivery, opts=("max_bond", "cutoff"), modules=("quimb.tensor.tn1d",), rule="cap-delivery[1d]", floor=40),
             P(registries.rule_mode_total, specs=[
                 ("quimb.tensor.tn1d.core", "TensorNetwork1DFlat.compress", "form"),
